@@ -466,7 +466,7 @@ PROPERTIES["C08"]["runs"] += [
 ]
 PROPERTIES["C08"]["explanation"] += (" P08 also covers named results with bare returns; Harness_P08_Ok is the same family for the (value, ok) form with constant ok operands (two return statements, explicit or through named results, "
     "forwarding, seven caller forms incl. an overwritten ok variable).")
-PROPERTIES["C08"]["bounds"]["quick"] = PROPERTIES["C08"]["bounds"]["quick"].replace("all 440 callee x caller programs of the P08 family", "all 2028 callee x caller programs of the P08 family (error form) and all 672 of the (value, ok) form")
+PROPERTIES["C08"]["bounds"]["quick"] = PROPERTIES["C08"]["bounds"]["quick"].replace("all 440 callee x caller programs of the P08 family", "all 2496 callee x caller programs of the P08 family (error form) and all 672 of the (value, ok) form")
 PROPERTIES["C08"]["outside"] = [o.replace("ok-returning functions and named results at source level; ", "non-constant ok operands; the precision clause (A2) for bare returns of a named ok result; ") for o in PROPERTIES["C08"]["outside"] if o != "ok-returning functions"]
 
 _P01X = dict(pkg="accumulation", files=PIPE_FILES, entry="Harness_P01X", quick=dict(params=dict(STMTS=2, COMPOUND=5)), thorough=dict(params=dict(STMTS=3, COMPOUND=4, SIMPLE=5)), args=dict(sample_every=61, max_samples=16))
